@@ -74,6 +74,7 @@ def tasks(tier, seed):
     for i in range(0, len(ORDERS), 2):
         out.append({"id": "callbacks#%d" % (i // 2), "harness": "callbacks", "args": ORDERS[i:i + 2]})
     out.append({"id": "dimensions", "harness": "dims", "args": ()})
+    out.append({"id": "base-format-defaults", "harness": "basefmt", "args": ()})
     return out
 
 
@@ -174,6 +175,26 @@ def build(task):
 
         return hc
 
+    if task["harness"] == "basefmt":
+
+        def hb(ctx):
+            import vc2_data_tables as T
+
+            bases = [int(x) for x in T.BaseVideoFormats]
+            base = bases[ctx.concretize(ctx.sym_int("base", 0, len(bases) - 1))]
+            pcm = ctx.concretize(ctx.sym_int("pcm", 0, 1))
+            got, want, dims, wdims = _basefmt_case(base, pcm)
+            if got is None:
+                if pcm == 1 and want["frame_height"] % 2:
+                    return "odd height"
+                ctx.fail("base-format-header-rejected", [base, pcm, dims])
+                return "rejected"
+            ctx.prove(got == want, "base-format-defaults", [base, {k: (got.get(k), want[k]) for k in want if got.get(k) != want[k]}])
+            ctx.prove(tuple(dims) == tuple(wdims), "base-format-picture-dimensions", [base, pcm, dims, wdims])
+            return "base %d pcm %d" % (base, pcm)
+
+        return hb
+
     def hd(ctx):
         fw = ctx.sym_int("fw", 1, None, default=37)
         fh = ctx.sym_int("fh", 1, None, default=22)
@@ -204,6 +225,56 @@ def build(task):
         return "fmt%d pcm%d" % (fmt, pcm)
 
     return hd
+
+
+def _golomb(v):
+    """Independent exp-Golomb packer (bit string) used to hand-build sequence headers."""
+    v += 1
+    n = v.bit_length()
+    out = ""
+    for i in range(n - 2, -1, -1):
+        out += "0" + str((v >> i) & 1)
+    return out + "1"
+
+
+def _basefmt_case(base, pcm):
+    """Header with no custom flags: the decoder must report exactly the base format's tabulated parameters
+    (reference: the vc2_data_tables package tables, not vc2_conformance)."""
+    import vc2_data_tables as T
+    from vc2_conformance.pseudocode.state import State
+    from vc2_conformance.decoder import init_io, sequence_header
+    from vc2_conformance.decoder.exceptions import ConformanceError
+
+    b = T.BASE_VIDEO_FORMAT_PARAMETERS[T.BaseVideoFormats(base)]
+    fr = T.PRESET_FRAME_RATES[b.frame_rate_index]
+    pa = T.PRESET_PIXEL_ASPECT_RATIOS[b.pixel_aspect_ratio_index]
+    sr = T.PRESET_SIGNAL_RANGES[b.signal_range_index]
+    cs = T.PRESET_COLOR_SPECS[b.color_spec_index]
+    want = dict(frame_width=b.frame_width, frame_height=b.frame_height, color_diff_format_index=int(b.color_diff_format_index),
+                source_sampling=int(b.source_sampling), top_field_first=b.top_field_first, frame_rate_numer=fr.numerator, frame_rate_denom=fr.denominator,
+                pixel_aspect_ratio_numer=pa.numerator, pixel_aspect_ratio_denom=pa.denominator, clean_width=b.clean_width, clean_height=b.clean_height,
+                left_offset=b.left_offset, top_offset=b.top_offset, luma_offset=sr.luma_offset, luma_excursion=sr.luma_excursion,
+                color_diff_offset=sr.color_diff_offset, color_diff_excursion=sr.color_diff_excursion, color_primaries_index=int(cs.color_primaries_index),
+                color_matrix_index=int(cs.color_matrix_index), transfer_function_index=int(cs.transfer_function_index))
+    for version in (1, 2, 3):
+        bits = _golomb(version) + _golomb(0) + _golomb(0) + _golomb(0) + _golomb(base) + "0" * 8 + _golomb(pcm)
+        bits += "0" * (-len(bits) % 8)
+        data = bytes(int(bits[i:i + 8], 2) for i in range(0, len(bits), 8))
+        st = State()
+        init_io(st, io.BytesIO(data))
+        try:
+            vp = sequence_header(st)
+        except ConformanceError as e:
+            last = e
+            continue
+        cw = b.frame_width if int(b.color_diff_format_index) == 0 else b.frame_width // 2
+        chh = b.frame_height if int(b.color_diff_format_index) != 2 else b.frame_height // 2
+        lh = b.frame_height
+        if pcm == 1:
+            lh, chh = lh // 2, chh // 2
+        dims = (st["luma_width"], st["luma_height"], st["color_diff_width"], st["color_diff_height"])
+        return {k: int(v) if not isinstance(v, bool) else v for k, v in vp.items()}, want, dims, (b.frame_width, lh, cw, chh)
+    return None, want, repr(last), None
 
 
 def _expected_pictures(units, upto_error=False):
@@ -294,6 +365,17 @@ def replay(task, label, inputs, extra):
             prove(len(pics) <= len(exp), "no-extra-pictures-before-error")
         return {"reproduced": bool(bad), "key": "C09:callbacks:%s" % (bad[0][0] if bad else None),
                 "detail": "order %r verdict %r pictures %d expected %d stream %s" % (order, cls, len(pics), len(exp), bytes(cells).hex())}
+    if task["harness"] == "basefmt":
+        import vc2_data_tables as T
+
+        bases = [int(x) for x in T.BaseVideoFormats]
+        base, pcm = bases[inputs.get("base", 0)], inputs.get("pcm", 0)
+        got, want, dims, wdims = _basefmt_case(base, pcm)
+        if got is None:
+            return {"reproduced": not (pcm == 1 and want["frame_height"] % 2), "key": "C09:basefmt:rejected", "detail": "base %d pcm %d: %s" % (base, pcm, dims)}
+        diff = {k: (got.get(k), want[k]) for k in want if got.get(k) != want[k]}
+        return {"reproduced": bool(diff) or tuple(dims) != tuple(wdims), "key": "C09:basefmt:%s" % ("defaults" if diff else "dimensions"),
+                "detail": "base video format %d coding mode %d: differing parameters (decoder, table) %r; dimensions %r vs %r" % (base, pcm, diff, dims, wdims)}
     # dims
     from vc2_conformance.pseudocode import video_parameters as VP
     from vc2_conformance.pseudocode.state import State
